@@ -137,9 +137,9 @@ def re_language(compiled: Any, strings: Sequence[Tuple[int, ...]], search_maxlen
 # ---------------------------------------------------------------------------------------------
 
 
-def pmap(fn: Callable[[Any], Any], items: Sequence[Any], procs: Optional[int] = None) -> List[Any]:
+def pmap(fn: Callable[[Any], Any], items: Sequence[Any], procs: Optional[int] = None, force: bool = False) -> List[Any]:
     procs = procs or int(os.environ.get("VERIF_PROCS", "8"))
-    if len(items) < 200 or procs <= 1:
+    if (len(items) < 200 and not force) or procs <= 1:
         return [fn(x) for x in items]
     ctx = multiprocessing.get_context("fork")
     with ctx.Pool(procs) as pool:
